@@ -46,7 +46,7 @@ def make_form(rng, i):
     cfg = common.rich_cfg(rng, langs=langs, p_translated=rng.choice([0.6, 0.9]), p_sparse=rng.choice([0.0, 0.3, 0.6]),
                           unsuffixed_too=rng.choice([0.0, 0.4, 0.8]), p_label_ref=0, p_choice_label_ref=0, p_hint=0.5, p_guidance=0.35, p_media=0.35,
                           p_constraint=0.5, p_constraint_msg=0.9, p_required=0.4, p_required_msg=0.8, p_choice_media=0.3, p_section_media=0.15,
-                          p_or_other=rng.choice([0, 0.25]), p_select=0.35, p_search=0, p_trigger=0, p_choice_nolabel=rng.choice([0, 0, 0.25]), delim=rng.choice(["::", "::", ":", ": ", " : ", ":: ", " :: "]),  # the delimiters may have blanks around them
+                          p_or_other=rng.choice([0, 0.25]), p_select=0.35, p_randomize=rng.choice([0, 0.3]), p_search=0, p_trigger=0, p_choice_nolabel=rng.choice([0, 0, 0.25]), delim=rng.choice(["::", "::", ":", ": ", " : ", ":: ", " :: "]),  # the delimiters may have blanks around them
                           p_bind_extra=0, p_instance_extra=0, p_body_extra=0, p_msg_ref=rng.choice([0, 0.4]))
     f = gen.gen_form(rng, cfg)
     mode = i % 4
@@ -338,6 +338,29 @@ def check(ctx, form, sig, sample=False, fmt="dict", spacers=0):
             missing = [x for x in exp_langs if x not in langs]
             kind = "invented" if extra else "missing"
             ctx.viol(f"translations:{kind}-language", f"translations in output {langs}, expected {exp_langs} (default language {D!r}); extra={extra} missing={missing}", wit())
+    # what a select shows for a choice goes through its itemset: the label ref must name the child the items of that instance really have
+    # (jr:itext(itextId) for items carrying an itext id, the label child otherwise) - or the user is shown nothing in any language
+    for el in p.body.iter():
+        if not isinstance(el.tag, str) or xf.local(el.tag) != "itemset":
+            continue
+        m_ = re.search(r"instance\('([^']+)'\)/root/item", el.get("nodeset") or "")
+        lab_ = el.find(xf.q(xf.XF, "label"))
+        if not m_ or lab_ is None:
+            continue
+        inst_ = next((i_ for i_ in p.secondary if i_.get("id") == m_.group(1)), None)
+        root_ = inst_.find(xf.q(xf.XF, "root")) if inst_ is not None else None
+        items_ = root_.findall(xf.q(xf.XF, "item")) if root_ is not None else []
+        if not items_:
+            continue
+        ref_ = lab_.get("ref") or ""
+        child_ = "itextId" if ref_.replace(" ", "") == "jr:itext(itextId)" else ref_
+        ctx.ctr("itemset_label_refs_followed")
+        # (a choice without a label has no label child: only a ref that NO item can answer is judged)
+        other_ = "itextId" if child_ == "label" else ("label" if child_ == "itextId" else None)
+        if other_ and all(it_.find(xf.q(xf.XF, child_)) is None for it_ in items_) and any(it_.find(xf.q(xf.XF, other_)) is not None for it_ in items_):
+            have_ = sorted({xf.local(c_.tag) for it_ in items_ for c_ in it_ if isinstance(c_.tag, str)})
+            ctx.viol("choice-label:itemset-label-ref-names-no-child-of-the-items", f"select {el.getparent().get('ref')}: <label ref={ref_!r}> but the items of instance "
+                     f"{m_.group(1)!r} have {have_}: no choice label or media is shown in any language", wit())
     for key, e in exp.items():
         g = obs.get(key)
         kind = key[-1]
